@@ -16,12 +16,13 @@ impl DeadValueCheck {
         item: Register,
     ) -> bool {
         let mut queue: Vec<Rc<crate::cfg::CfgNode>> = node.prevs().iter().cloned().collect();
-        let mut visited: Vec<Rc<crate::cfg::CfgNode>> = vec![Rc::clone(node)];
+        #[allow(clippy::mutable_key_type)]
+        let mut visited = std::collections::HashSet::new();
+        visited.insert(Rc::clone(node));
         while let Some(prev) = queue.pop() {
-            if visited.iter().any(|seen| Rc::ptr_eq(seen, &prev)) {
+            if !visited.insert(Rc::clone(&prev)) {
                 continue;
             }
-            visited.push(Rc::clone(&prev));
             if prev.is_program_entry() {
                 // The program starts with its arguments
                 if Register::program_args_set().contains(&item) {
@@ -29,17 +30,21 @@ impl DeadValueCheck {
                 }
                 return false;
             }
-            if let Some(function) = prev.is_function_entry_with_func() {
-                // A function starts with its arguments, a handler with
-                // everything the interrupted code had
-                if prev.is_handler_function_entry() || function.arguments().contains(&item) {
+            if prev.is_function_entry_with_func().is_some() {
+                // A function starts with its arguments - which of the argument
+                // registers the caller has set is not known here (the inferred
+                // arguments leave out one that is first read behind an ecall) -
+                // and a handler with everything the interrupted code had
+                if prev.is_handler_function_entry() || Register::argument_set().contains(&item) {
                     continue;
                 }
                 return false;
             }
             if let Some((function, _)) = prev.calls_to_from_cfg(cfg) {
-                // A call returns its results and garbage otherwise
-                if function.returns().contains(&item) {
+                // A call returns its results (a0, a1 at most; the inferred
+                // ones leave out a result that is first read behind an ecall)
+                // and garbage otherwise
+                if function.returns().contains(&item) || Register::return_set().contains(&item) {
                     continue;
                 }
                 return false;
